@@ -76,7 +76,7 @@ def run_row(case, ctx):
 		                f'got genomes {got[max(0, first - 2):first + 4]} with distances {[dists[g] if g is not None else None for g in got[max(0, first - 2):first + 4]]}, '
 		                f'expected {exp[max(0, first - 2):first + 4]}', case)
 	for m, i in zip(item.closest_genomes, exp):
-		if J.float_to_bits(m.distance) != J.float_to_bits(dists[i]):
+		if float(m.distance) != float(dists[i]):
 			raise Violation('closest_distance', f'genome {i}: listed distance {float(m.distance)!r} != {dists[i]!r}', case)
 		mt = None if m.matched_taxon is None else tindex.get(id(m.matched_taxon))
 		if mt != F.match(genome_taxa[i], dists[i]):
@@ -128,7 +128,7 @@ def run_world(case, ctx):
 				raise Violation('closest_order', f'query {qi}: closest_genomes {got} (distances {[float(m.distance) for m in item.closest_genomes]}) '
 				                f'!= expected (distance, reference order) prefix {exp}; reference order {W.ref_order}', case)
 			for m, j in zip(item.closest_genomes, exp):
-				if J.float_to_bits(m.distance) != W.dbits[qi][j]:
+				if float(m.distance) != W.dist(qi, j):
 					raise Violation('closest_distance', f'query {qi} genome {j}: distance {float(m.distance)!r} != {W.dist(qi, j)!r}', case)
 				mt = W.forest.match(W.w['genomes'][j]['taxon'], W.dist(qi, j))
 				gk = None if m.matched_taxon is None else m.matched_taxon.key
